@@ -147,6 +147,7 @@ def main():
                 eng = Engine(fns, consts, extern)
                 eng.discriminants = {"Context::Root": 0, "Context::Child": 1, "Result::Ok": 0, "Result::Err": 1, "ControlFlow::Continue": 0, "ControlFlow::Break": 1}
                 eng.discriminants.update(VALUE_DISC)
+                eng.unit_variants = {"Value::Null": ("enum", "Value::Null", []), "objects::Value::Null": ("enum", "Value::Null", [])}
                 eng.steps = 0
                 probs = []
                 for name in names:
@@ -170,31 +171,31 @@ def main():
                 # define / redefine in the innermost scope
                 for name in names:
                     before = [copy.deepcopy(h[0][2][1][1]) for h in holders[:-1]]
-                    eng.call_fn(f_add, [inner, ("string", name), ("abs_val", "new-" + name)])
+                    eng.call_fn(f_add, [inner, ("string", name), ("enum", "Value::Int", [7000 + "abc".index(name)])])
                     stats["paths"] += 1
                     after = [h[0][2][1][1] for h in holders[:-1]]
                     if before != after:
                         probs.append("defining %s in the innermost scope changed an enclosing scope" % name)
                     got = eng.call_fn(f_get, [inner, ("string", name)])
-                    if got != ("enum", "Result::Ok", [("abs_val", "new-" + name)]):
+                    if got != ("enum", "Result::Ok", [("enum", "Value::Int", [7000 + "abc".index(name)])]):
                         probs.append("after defining %s the lookup gives %r" % (name, got))
                 # the host-facing definition (`add_variable`, with a conversion): define and redefine in the innermost scope;
                 # a failing conversion defines nothing
                 for name in names:
                     for round_ in (1, 2):
                         before = [copy.deepcopy(h[0][2][1][1]) for h in holders[:-1]]
-                        r_add = eng.call_fn(f_add_conv, [inner, ("string", name), ("abs_val", "host%d-%s" % (round_, name))])
+                        r_add = eng.call_fn(f_add_conv, [inner, ("string", name), ("enum", "Value::Int", [8000 + 10 * round_ + "abc".index(name)])])
                         stats["paths"] += 1
                         if before != [h[0][2][1][1] for h in holders[:-1]]:
                             probs.append("add_variable(%s) in the innermost scope changed an enclosing scope" % name)
                         if not (isinstance(r_add, tuple) and r_add[1] == "Result::Ok"):
                             probs.append("add_variable(%s) with a convertible value is not Ok: %r" % (name, r_add))
                         got = eng.call_fn(f_get, [inner, ("string", name)])
-                        if got != ("enum", "Result::Ok", [("abs_val", "host%d-%s" % (round_, name))]):
+                        if got != ("enum", "Result::Ok", [("enum", "Value::Int", [8000 + 10 * round_ + "abc".index(name)])]):
                             probs.append("after add_variable(%s) (definition %d) the lookup gives %r" % (name, round_, got))
                     r_bad = eng.call_fn(f_add_conv, [inner, ("string", name), ("bad_host_value",)])
                     got = eng.call_fn(f_get, [inner, ("string", name)])
-                    if not (isinstance(r_bad, tuple) and r_bad[1] == "Result::Err") or got != ("enum", "Result::Ok", [("abs_val", "host2-%s" % name)]):
+                    if not (isinstance(r_bad, tuple) and r_bad[1] == "Result::Err") or got != ("enum", "Result::Ok", [("enum", "Value::Int", [8020 + "abc".index(name)])]):
                         probs.append("add_variable(%s) with an inconvertible value: result %r, lookup afterwards %r" % (name, r_bad, got))
                 if probs:
                     failures.append({"levels": levels, "defined": [list(x) for x in combo], "problems": probs[:4]})
